@@ -718,6 +718,10 @@ def _freeze1(env: dict, stmt: ast.AST, inplace: str | None = None) -> None:
                 hit = True
             if isinstance(n, (ast.Attribute, ast.Name, ast.Subscript)) and u(n) in bases:
                 hit = True
+            # x[k] goes through x.__getitem__, which reads x's own tables: x._t[..] = .. / x._t.append(..) changes what it answers
+            if isinstance(n, ast.Subscript) and isinstance(n.value, ast.Name) and (any(b.startswith(n.value.id + ".") for b in bases)
+                                                                                  or any(a_[0] == n.value.id for a_ in attrs)):
+                hit = True
             if hit:
                 break
         if hit:
